@@ -33,6 +33,18 @@ def counts(mod, tier):
 
 
 # --------------------------------------------------------------------------- #
+def say(*a, **k):
+    """print that survives a reader who closed the pipe (`| head`): the exit code must still be delivered."""
+    try:
+        print(*a, **k)
+        sys.stdout.flush()
+    except BrokenPipeError:
+        try:
+            sys.stdout = open(os.devnull, "w")
+        except OSError:
+            pass
+
+
 def run_shard(prop, tier, seed, shard, nshards, time_budget):
     """Runs the cases i with i % nshards == shard.  Systematic cases first
     (never cut by the time budget), then random cases until the count or the
@@ -118,7 +130,7 @@ def main_check(prop, tier):
     seed = int(os.environ.get("VERIF_SEED", "0"))
     mod = load(prop)
     if not hooks_enabled():
-        print("INCONCLUSIVE property={} reason=guard TRADINGENV_VERIF is off".format(prop))
+        say("INCONCLUSIVE property={} reason=guard TRADINGENV_VERIF is off".format(prop))
         return 2
     budget = mod.TIME[tier] if hasattr(mod, "TIME") else {"quick": 45, "thorough": 480}[tier]
     budget = float(os.environ.get("VERIF_TIME", budget))
@@ -235,7 +247,7 @@ def finish(mod, prop, tier, seed, agg, died, wall):
         f.write("\n")
     # ---- verdict ---------------------------------------------------------- #
     for key, f in seen_known.items():
-        print("KNOWN-FINDING: property={} key={} {}".format(prop, key, known[(prop, key)]))
+        say("KNOWN-FINDING: property={} key={} {}".format(prop, key, known[(prop, key)]))
     if viol_cases:
         rdir = os.path.join(outroot, "replays", prop)
         os.makedirs(rdir, exist_ok=True)
@@ -244,17 +256,17 @@ def finish(mod, prop, tier, seed, agg, died, wall):
             with open(path, "w") as f:
                 json.dump(dict(property=prop, tier=tier, seed=seed, kind=v["kind"], index=v["index"],
                                clauses=v["clauses"], sample=v["sample"]), f, indent=1)
-            print("VIOLATION property={} replay={}".format(prop, path))
+            say("VIOLATION property={} replay={}".format(prop, path))
             for c in v["clauses"][:2]:
-                print("  clause={} detail={}".format(c["clause"], json.dumps(c["detail"])[-700:]))
-        print("{}: {} violating case(s) out of {} ({} s)".format(
+                say("  clause={} detail={}".format(c["clause"], json.dumps(c["detail"])[-700:]))
+        say("{}: {} violating case(s) out of {} ({} s)".format(
             prop, agg["n_violating_cases"] + len(unlisted), agg["evaluations"], round(wall, 1)))
         return 1
     if reasons:
         for r in reasons:
-            print("INCONCLUSIVE property={} reason={}".format(prop, r))
+            say("INCONCLUSIVE property={} reason={}".format(prop, r))
         return 2
-    print("{} {}: held on {} executions ({} systematic, {} random; {} distinct non-trivial; "
+    say("{} {}: held on {} executions ({} systematic, {} random; {} distinct non-trivial; "
           "{} oracle evaluations) in {} s".format(
               prop, tier, agg["evaluations"], agg["n_sys"], agg["n_rand"], len(agg["nontrivial"]),
               sum(agg["evals"].values()), round(wall, 1)))
@@ -272,14 +284,14 @@ def main_replay(prop, path):
     bad = list(ctx.violations)
     for f in ctx.findings:
         if (prop, f["key"]) in known:
-            print("KNOWN-FINDING: property={} key={} {}".format(prop, f["key"], known[(prop, f["key"])]))
+            say("KNOWN-FINDING: property={} key={} {}".format(prop, f["key"], known[(prop, f["key"])]))
         else:
             bad.append({"clause": "unlisted-finding:" + f["key"], "detail": f["detail"]})
-    print(json.dumps(dict(sample=core.jsonable(ctx.sample), violations=bad), indent=1)[:20000])
+    say(json.dumps(dict(sample=core.jsonable(ctx.sample), violations=bad), indent=1)[:20000])
     if bad:
-        print("VIOLATION property={} replay={}".format(prop, path))
+        say("VIOLATION property={} replay={}".format(prop, path))
         return 1
-    print("replay: no violation")
+    say("replay: no violation")
     return 0
 
 
@@ -292,13 +304,13 @@ def main_selftest():
     assert ok, "guard off"
     assert getattr(Broker.transact, "_vf_wrapper", False)
     os.makedirs(os.path.join(ROOT, "evidence"), exist_ok=True)
-    print("selftest ok: tradingenv from", os.path.dirname(tradingenv.__file__))
+    say("selftest ok: tradingenv from", os.path.dirname(tradingenv.__file__))
     return 0
 
 
 def main(argv):
     if not argv:
-        print(__doc__)
+        say(__doc__)
         return 2
     if argv[0] == "selftest":
         return main_selftest()
